@@ -820,3 +820,76 @@ def run_cache_schedule(inst_old, new_strat, warm, schedule, n, bkey=1):
     except Exception as ex:
         res["error"] = "%s: %s" % (type(ex).__name__, ex)
     return res
+
+
+# =========================================================================================== C21: LBPRace.tla schedules
+
+def race_schedules(nodes, edges, init):
+    """{initial node id: [schedule (thread numbers, one per step) for every maximal path]} of the LBPRace.tla graph."""
+    succ = {}
+    for s, d, lab in set(edges):
+        if s != d:
+            m = re.match(r'^\w+\((\d+)\)$', lab.strip().replace(" ", ""))
+            succ.setdefault(s, []).append((int(m.group(1)) if m else 0, d))
+    out = {}
+    for i in sorted(init):
+        paths = []
+
+        def walk(n, path):
+            nxt = sorted(succ.get(n, ()))
+            if not nxt:
+                paths.append(list(path))
+                return
+            for t, d in nxt:
+                path.append(t)
+                walk(d, path)
+                path.pop()
+        walk(i, [])
+        out[i] = paths
+    return out
+
+
+def run_race(live0, ev, schedule, k=0):
+    """Two logical threads deliver ev[t] for host t to one real DCAwareRoundRobinPolicy whose _hosts_lock is a
+    scheduler-aware lock (yield before acquire, after release).  Returns {"plan": [...], "dist": {...}, "error", "skipped"}."""
+    from harness.sim.detsched import DetSched, DLock
+    P = repo_import("cassandra.policies")
+    pool = repo_import("cassandra.pool")
+    conn = repo_import("cassandra.connection")
+    res = {"plan": [], "error": None, "skipped": 0}
+    try:
+        hosts = {}
+        for h in (1, 2, 3):
+            host = pool.Host(conn.DefaultEndPoint(addr(h)), P.SimpleConvictionPolicy)
+            host.set_location_info("A", "r1")
+            host.set_up()
+            hosts[h] = host
+        policy = P.DCAwareRoundRobinPolicy(local_dc="A", used_hosts_per_remote_dc=k)
+        policy.populate(_Cluster(None, []), [hosts[h] for h in sorted(live0)])
+        policy._hosts_lock = DLock("hosts", yield_on_release=True)
+        s = DetSched()
+        for t in (1, 2):
+            s.spawn(str(t), (policy.on_up if ev[t] == "up" else policy.on_down), hosts[t])
+        try:
+            for t in schedule:
+                th = s.threads[str(t)]
+                if th.done or th.is_blocked():
+                    res["skipped"] += 1
+                    continue
+                s.step(str(t))
+            guard = 0
+            while s.alive():
+                r = sorted(s.runnable(), key=lambda x: x.name)
+                if not r:
+                    raise RuntimeError("deadlock: %s" % [(x.name, str(x.waiting_for)) for x in s.alive()])
+                s.step(r[0].name)
+                guard += 1
+                if guard > 1000:
+                    raise RuntimeError("threads do not finish")
+        finally:
+            s.close()
+            DetSched.current = None
+        res["plan"] = [int(h.address.rsplit(".", 1)[1]) for h in policy.make_query_plan()]
+    except Exception as ex:
+        res["error"] = "%s: %s" % (type(ex).__name__, ex)
+    return res
